@@ -1,6 +1,6 @@
 (* C02 — Task group errors: siblings cancelled, every exception surfaces exactly once.
    This file contains only statements closed by `exact` and their Print Assumptions. *)
-From AV Require Import Base Machine GroupInv GroupThmsPure GroupThms GroupThms4 GroupThms6 GroupThms7 GroupThms10 GroupThms12.
+From AV Require Import Base Machine GroupInv GroupThmsPure GroupThms GroupThms4 GroupThms6 GroupThms7 GroupThms10 GroupThms12 GroupThms15 GroupThms16.
 From Coq Require Import Permutation.
 
 Theorem C02_group_excs_exactly_member_errors : forall s g, reach s ->
@@ -27,9 +27,14 @@ Theorem C02_group_excs_grow_only_by : forall s o g, reach s ->
 Proof. exact group_excs_grow_only_by. Qed.
 Print Assumptions C02_group_excs_grow_only_by.
 
+(* F23: after the task_done callback of a child that ended with a non-cancellation error (not routed to a pending
+   start future: the group's error list grew) the group's OWN scope has cancel_called (s_cancelled) - whatever the
+   enclosing scopes - and is therefore effectively cancelled *)
 Theorem C02_first_failure_cancels_group : forall s t g, reach s -> In (HTaskDone t) (ready s) ->
   k_group (tasks s t) = Some g ->
   g_excs (groups (fst (step s (ARun (HTaskDone t)))) g) <> g_excs (groups s g) ->
+  s_cancelled (scopes (fst (step s (ARun (HTaskDone t))))
+                      (g_scope (groups (fst (step s (ARun (HTaskDone t)))) g))) = true /\
   eff_cancelled (fst (step s (ARun (HTaskDone t))))
                 (g_scope (groups (fst (step s (ARun (HTaskDone t)))) g)) = true.
 Proof. exact first_failure_cancels_group. Qed.
@@ -84,3 +89,79 @@ Theorem C02_group_result_composition : forall ops g, disciplined ops = true ->
      In t ms \/ exists f, k_startfut (tasks s t) = Some f /\ f_st (futs s f) = FExc e).
 Proof. exact group_result_composition_ops. Qed.
 Print Assumptions C02_group_result_composition.
+
+(* F20. The error e of a finished member t (task_done has run) is among the errors collected by its group, or it
+   sits in t's start future - and then every starter still waiting on that future raises exactly e in the step that
+   resumes it, whether or not it has been natively cancelled in between *)
+Theorem C02_start_no_error_lost_raised : forall s g t e, reach s -> In t (g_ever (groups s g)) ->
+  k_tdran (tasks s t) = true -> k_done (tasks s t) = Some (OExc e) ->
+  In e (map snd (g_excs (groups s g))) \/
+  exists f, k_startfut (tasks s t) = Some f /\ f_st (futs s f) = FExc e /\
+    forall t' g' c h, k_ctl (tasks s t') = CStartWait g' c f -> In h (ready s) ->
+      (h = HStep t' \/ exists f', h = HWake t' f') ->
+      c = t /\ h = HWake t' f /\ snd (step s (ARun h)) = RExc e.
+Proof. exact start_no_error_lost_raised. Qed.
+Print Assumptions C02_start_no_error_lost_raised.
+
+(* F20 before the fix (step_old = the step with the old CStartWait branch, GroupThms15.v): a run in which the child's
+   error EErr 7 is in no result, in no group's collected errors, held by no live task and in no future a live task
+   waits on; on the fixed machine the same run makes start() and then the task group raise it *)
+Theorem C02_start_error_lost_before_fix_refuted :
+  exists ops,
+    let '(s, outs) := run_ops step_old init ops in
+    k_done (tasks s 2) = Some (OExc (EErr 7)) /\ k_tdran (tasks s 2) = true /\
+    f_st (futs s 4) = FExc (EErr 7) /\ k_startfut (tasks s 2) = Some 4 /\
+    forallb (fun r => negb (res_has_err 7 r)) outs = true /\ err_visible 7 s = false /\
+    err_visible 7 (final step_old init (firstn 10 ops)) = false /\
+    k_ctl (tasks s 1) = CDone /\ k_ctl (tasks s 2) = CDone /\
+    nth 9 (snd (run_ops step init ops)) RNone = RExc (EErr 7) /\
+    nth 11 (snd (run_ops step init ops)) RNone = RExc (EGroup [EErr 7]).
+Proof. exact start_error_lost_before_fix_refuted. Qed.
+Print Assumptions C02_start_error_lost_before_fix_refuted.
+
+(* the pre-fix step differs from the step only where a starter is resumed while its start future holds an exception *)
+Theorem C02_step_old_eq : forall s o,
+  (forall t g c f e, k_ctl (tasks s t) = CStartWait g c f -> f_st (futs s f) <> FExc e) ->
+  step_old s o = step s o.
+Proof. exact step_old_eq. Qed.
+Print Assumptions C02_step_old_eq.
+
+(* F23. In every state of every run, a task group whose error list is not empty (a child or the body failed) has
+   cancel_called on its OWN scope and is therefore effectively cancelled, whatever shields are set afterwards *)
+Theorem C02_failed_group_stays_cancelled : forall ops g,
+  g_excs (groups (final step init ops) g) <> [] ->
+  s_cancelled (scopes (final step init ops) (g_scope (groups (final step init ops) g))) = true /\
+  eff_cancelled (final step init ops) (g_scope (groups (final step init ops) g)) = true.
+Proof. exact failed_group_stays_cancelled. Qed.
+Print Assumptions C02_failed_group_stays_cancelled.
+
+(* the monotone form: no operation empties the error list of an allocated group, changes the group's scope or
+   resets cancel_called of that scope *)
+Theorem C02_failed_group_persists : forall s o g, reach s -> g < ngroup s -> g_excs (groups s g) <> [] ->
+  g_excs (groups (fst (step s o)) g) <> [] /\
+  g_scope (groups (fst (step s o)) g) = g_scope (groups s g) /\
+  s_cancelled (scopes (fst (step s o)) (g_scope (groups s g))) = true.
+Proof. exact failed_group_persists. Qed.
+Print Assumptions C02_failed_group_persists.
+
+(* __aexit__ entered with an exception of the body calls cancel() on the group's own scope *)
+Theorem C02_body_failure_cancels_group : forall s t g e, reach s -> idle s t = true ->
+  k_held (tasks s t) = Some e ->
+  s_cancelled (scopes (fst (step s (AGroupExit t g))) (g_scope (groups (fst (step s (AGroupExit t g))) g))) = true /\
+  (is_cancel e = false ->
+   g_excs (groups (fst (step s (AGroupExit t g))) g) = g_excs (groups s g) ++ [(0, e)]).
+Proof. exact body_failure_cancels_group. Qed.
+Print Assumptions C02_body_failure_cancels_group.
+
+(* F23 before the fix (step_old23 = the step with a literal copy of the old task_done callback, GroupThms16.v): the
+   enclosing scope is cancelled, a child fails, the host shields the group's scope: the group with a failed child is
+   active and neither cancelled nor effectively cancelled; on the fixed machine its own scope is cancelled *)
+Theorem C02_failed_group_escapes_before_fix_refuted :
+  exists ops,
+    let s := final step_old23 init ops in
+    g_excs (groups s 1) = [(3, EErr 7)] /\ g_scope (groups s 1) = 2 /\ s_active (scopes s 2) = true /\
+    s_cancelled (scopes s 2) = false /\ eff_cancelled s 2 = false /\
+    k_done (tasks s 2) = None /\ k_must (tasks s 2) = false /\
+    s_cancelled (scopes (final step init ops) 2) = true /\ eff_cancelled (final step init ops) 2 = true.
+Proof. exact failed_group_escapes_before_fix_refuted. Qed.
+Print Assumptions C02_failed_group_escapes_before_fix_refuted.
